@@ -21,6 +21,10 @@ pub struct Ntv2Grid {
 
 impl Ntv2Grid {
     pub fn new(buf: &[u8]) -> Result<Self, Error> {
+        // Too short to hold even the overview header?
+        if buf.len() < HEADER_SIZE {
+            return Err(Error::Invalid("NTv2 file too short".to_string()));
+        }
         let parser = NTv2Parser::new(buf.into());
 
         // NUM_OREC is the NTv2 signature, i.e. "magic bytes"
@@ -52,11 +56,23 @@ impl Ntv2Grid {
             // The NTv2 spec does not guarantee the order of subgrids, so we must create
             // a lookup table from parent to children to make it possible for `find_grid` to
             // have a start point for working out which subgrid, if any, contains the point
-            subgrids.insert(name.clone(), grid);
+            // `find_grid` walks from parent to children by name: A sub grid called
+            // "NONE" (the name of the root's parent), or two sub grids with the
+            // same name, would make it walk in circles
+            if name == "NONE" || subgrids.insert(name.clone(), grid).is_some() {
+                return Err(Error::Invalid(
+                    "Bad or duplicate NTv2 sub grid name".to_string(),
+                ));
+            }
             lookup_table
                 .entry(parent)
                 .or_insert_with(Vec::new)
                 .push(name);
+        }
+
+        // `find_grid` starts from the root grids, i.e. the ones having the parent "NONE"
+        if !lookup_table.contains_key("NONE") {
+            return Err(Error::Invalid("No NTv2 root grid".to_string()));
         }
 
         Ok(Self {
